@@ -217,10 +217,12 @@ def iteration_outcomes(b, l, inner, res):
             if st["k"] == "assign" and not st["place"]["p"]:
                 lcl = st["place"]["l"]
                 rv = st["rv"]
-                if rv["k"] == "use" and "const" in rv["op"] and "bool" in rv["op"]["const"] and not b.is_drop_flag(lcl) is False:
-                    pass
-                if rv["k"] == "use" and "const" in rv["op"] and "bool" in rv["op"]["const"] and b.local_name(lcl):
+                if rv["k"] == "use" and "const" in rv["op"] and "bool" in rv["op"]["const"]:
                     bd[lcl] = rv["op"]["const"]["bool"]
+                elif rv["k"] == "use" and mir.op_place(rv["op"]) is not None and not mir.op_place(rv["op"])["p"] and mir.op_place(rv["op"])["l"] in bd:
+                    bd[lcl] = bd[mir.op_place(rv["op"])["l"]]
+                elif rv["k"] == "unop" and rv["op"] == "Not" and mir.op_place(rv["o"]) is not None and not mir.op_place(rv["o"])["p"] and mir.op_place(rv["o"])["l"] in bd:
+                    bd[lcl] = not bd[mir.op_place(rv["o"])["l"]]
                 elif lcl in bd:
                     bd.pop(lcl)
         t = blk["term"]
@@ -250,7 +252,7 @@ def iteration_outcomes(b, l, inner, res):
                 if tgt is None:
                     tgt = t["otherwise"]
                 succ = [tgt]
-                ev.add(("flag", b.local_name(opl["l"]), bd[opl["l"]]))
+                pass
                 handled = True
             if not handled:
                 sw2 = mir.switch_enum(b, bb)
